@@ -109,10 +109,12 @@ PROPS = {
                           "used up or algorithm finished (grid: queue exhausted and nothing running; random: max_collisions+1 collisions); the "
                           "search loop's trace shape (C19); and the run bound: for every algorithm, schedule and outcome pattern the number of trial "
                           "runs is at most (#distinct trials) x (max_retries+1), hence N x (R+1) under max_trials = N and |grid| x (R+1) for grid search.",
-            "level_note": "partial: that every fair schedule makes all workers reach STOPPED (liveness proper), and the bound on the number of trials of "
-                          "Hyperband's schedule, are checked on the implementation by the `liveness` / `hyperband` suites (fair random schedulers incl. "
-                          "all-fail patterns and empty initial spaces, explicit bounds), not proved; the IDLE / STOPPED decision logic and the run "
-                          "bound per trial are proved. " + CORE_NOTE,
+            "level_note": "Liveness proper is proved for every oracle with a trial budget (Ktm/Live.lean: along every interleaving of workers that finish "
+                          "what they are given at most 2*N*(R+1) steps hand out or end a trial, STOPPED is answered to a worker once, and an IDLE answer "
+                          "always points at a worker that has not been told STOPPED and whose next step ends a trial). partial: the same bound with the "
+                          "Hyperband schedule (finite iterations) or the finite grid in the place of max_trials is checked on the implementation by the "
+                          "`liveness` / `hyperband` suites (fair random schedulers incl. all-fail patterns, empty initial spaces, not-tuned "
+                          "configurations, explicit bounds), not proved. " + CORE_NOTE,
             "assumptions": ["fairness = every started trial is eventually ended (scheduler of the suite)"]},
     "C14": {"suites": [TRANSFORMS],
             "level_text": "Theorems (Ktm/Props/C14.lean), exact arithmetic: prob->index always in range, index->prob->index = id, the stepped linear "
@@ -162,21 +164,25 @@ PROPS = {
                           "optimiser's bound 1.0 are validated on every issued trial (type, [min, max] up to 1e-9) but not proved (float pow, scipy). "
                           + 'Spaces are modelled as parent-first lists of entries with numbered names and value lists (value code = index in the grid-ordered list: default first); the harness translates real HyperParameters objects to that form. Hypotheses of the theorems: distinct names and parents first (F16 / F10 were exactly violations of these; same-named entries under different conditions are exercised by the suites only).' + " Every issued trial of every suite is additionally checked by a direct monitor (exactly the active names, each value in its domain).",
             "assumptions": ["domain of an entry = its lattice / choices / fixed value plus its default"]},
-    "C06": {"suites": [SAMPLING, SAMPLING_GROW, HYPERBAND_SMALL],
+    "C06": {"suites": [SAMPLING, SAMPLING_GROW, HYPERBAND_SMALL, ORACLE_SMALL],
             "level_text": "Theorems (Ktm/Props/C06.lean): a sampled assignment is never in the tried set; giving up happens after exactly max_collisions+1 "
                           "colliding passes (structural recursion on that fuel: no loop); along every request list the start values of a sampling oracle "
-                          "stay pairwise distinct; on exhaustion random search answers STOPPED, Hyperband IDLE only while trials run.",
+                          "stay pairwise distinct; with values reported at end_trial and the tried set as the code keeps it (old hash dropped when new entries are tuned) "
+                          "a fresh trial differs from the current values of every stored trial unless it is a dropped configuration, which is never sampled from the "
+                          "grown space; unconditionally when new entries are not tuned; on exhaustion random search answers STOPPED, Hyperband IDLE only while trials run.",
             "level_note": "The hash of the active values is modelled as the assignment itself (SHA-256 truncation and str() rendering are outside the model). "
-                          "The whole seeded random oracle is re-executed by the model from the logged PRNG draws. partial: growth of the space during the "
-                          "search (entries reported at end_trial) is checked by the suite's grow modes, the theorem is for a fixed space. " + 'Spaces are modelled as parent-first lists of entries with numbered names and value lists (value code = index in the grid-ordered list: default first); the harness translates real HyperParameters objects to that form. Hypotheses of the theorems: distinct names and parents first (F16 / F10 were exactly violations of these; same-named entries under different conditions are exercised by the suites only).',
+                          "The whole seeded random oracle is re-executed by the model from the logged PRNG draws; the tried set (with its removals) is "
+                          "compared with the model after every request of the oracle suite. partial: that a dropped configuration really lacks an active "
+                          "entry of the grown space (the link between the two halves of the growth theorem) is checked by the grow modes, not proved. " + 'Spaces are modelled as parent-first lists of entries with numbered names and value lists (value code = index in the grid-ordered list: default first); the harness translates real HyperParameters objects to that form. Hypotheses of the theorems: distinct names and parents first (F16 / F10 were exactly violations of these; same-named entries under different conditions are exercised by the suites only).',
             "assumptions": ["hash injective on well-typed values"]},
     "C09": {"suites": [GRID, GRID_DISCOVER],
             "level_text": "Theorems (Ktm/Props/C09.lean): the code's odometer step is the successor function of the enumeration of active combinations; the "
                           "enumeration has no duplicates and starts with all defaults; in every reachable state (any workers, finishing order, failures, "
                           "retries) trial i carries combination i; a STOPPED answer with nothing running means the trials are exactly the enumeration.",
             "level_note": "The whole GridSearchOracle (queue, ordered id list, successor computation) runs in the model and is compared answer by answer. "
-                          "partial: spaces discovered while trials run are not covered by the theorems (the code itself does not visit the full product "
-                          "there; known findings F5a/F5b); same-named entries under different conditions are known findings F16g-*. " + 'Spaces are modelled as parent-first lists of entries with numbered names and value lists (value code = index in the grid-ordered list: default first); the harness translates real HyperParameters objects to that form. Hypotheses of the theorems: distinct names and parents first (F16 / F10 were exactly violations of these; same-named entries under different conditions are exercised by the suites only).',
+                          "partial: spaces discovered while trials run and same-named entries under different conditions are not covered by the theorems "
+                          "(both were defects, F5 and F16g, repaired in this round); they are decided by the suite: exactly-once coverage of the final "
+                          "space for uniformly late declarations, and of an independent enumeration for same-named entries with domains of their own. " + 'Spaces are modelled as parent-first lists of entries with numbered names and value lists (value code = index in the grid-ordered list: default first); the harness translates real HyperParameters objects to that form. Hypotheses of the theorems: distinct names and parents first (F16 / F10 were exactly violations of these; same-named entries under different conditions are exercised by the suites only).',
             "assumptions": []},
     "C12": {"suites": [SAMPLING],
             "level_text": "Theorems (Ktm/Props/C12.lean): seed schedule (one seed per sampled entry, +1 each, never reused), issued trials a function of "
@@ -184,7 +190,7 @@ PROPS = {
                           "the model's inputs are complete: every PRNG draw of the implementation is logged with its seed and must be the one the model predicts.",
             "level_note": "MT19937 (random.Random) is trusted; Bayesian GP / optimiser numerics are not modelled (same inputs => same outputs assumed for "
                           "sklearn / scipy with fixed random_state; checked by running scenarios twice and in a fresh interpreter with another "
-                          "PYTHONHASHSEED). Known finding F14 (unseeded fill-in on Hyperband promotion after discovery).",
+                          "PYTHONHASHSEED, and a third time with the process-wide generators drawn from and re-seeded between the requests).",
             "assumptions": ["random.Random(seed) is deterministic"]},
     "C17": {"suites": [SYNC],
             "level_text": "Theorems (Ktm/Props/C17.lean), for any number of threads and every schedule over the wrapper's shared operations: mutual "
@@ -228,6 +234,6 @@ PROPS = {
                           "list and the chief's own state are compared.",
             "level_note": "partial: the layer's transparency is established by differential runs (direct vs. remote), the theorems cover the codec's ordering "
                           "and typing and the exit condition only; float32 rounding and gRPC itself are not modelled (the transport is in-process but "
-                          "serialises every message). Known findings F19 (Trial.message has no proto field) and F14-rpc.",
+                          "serialises every message). Known finding F19 (Trial.message has no proto field).",
             "assumptions": ["protobuf wire encoding"]},
 }
